@@ -377,15 +377,9 @@ class C03(FsScenario):
                 v.append(Violation("phantom", "C03:phantom:dir-moved-out", f"{[b['shape'] for b in bad[:4]]} reported for operations on a directory that had been moved out of the watched tree; ops={run.case['ops']}"))
             else:
                 v.append(Violation("unsound", "C03:unjustified-event:" + ",".join(kinds[:3]), f"{[b['shape'] for b in bad[:4]]} not explained by ops {run.case['ops']}"))
-        first_out = min([c["opi"] for c in run.contracts if c["op"][0].startswith("out_")], default=None)
         for c in run.oracle_contract():
             if c["op"][0].startswith("out_"):
-                continue  # phantom events of operations outside the tree are reported by the soundness oracle above
-            if first_out is not None and c["opi_"] > first_out:
-                # the known phantom defect also installs watches under wrong paths (a phantom DirCreated makes the reader
-                # add a watch on whatever now has that name, e.g. a plain file): contracts after the first operation on a
-                # moved-out directory are not judged in such a run
-                continue
+                continue  # events of operations outside the tree are reported by the soundness oracle above
             what = ("missing" if c["missing"] else "") + ("extra" if c["extra"] else "") + ("dup" if c["dup"] else "")
             v.append(Violation("contract", f"C03:contract:{c['op'][0]}:{what}:{'rec' if run.recursive else 'nonrec'}{':full' if run.full else ''}", f"{c}"))
             break
